@@ -77,9 +77,11 @@ def existing_keyspecs():
     )
 
 
-def resolve_key(spec, model_keys_sorted):
+def resolve_key(spec, model_keys_sorted, last=None):
     if spec[0] == "lit":
         return spec[1]
+    if spec[0] == "touched":  # the key of the most recent mutation
+        return last if last is not None else b""
     _, i, how, a, b = spec
     ks = model_keys_sorted
     if not ks:
@@ -125,12 +127,15 @@ def literal_values(tier):
 def valspecs(tier, sfx_weight=2):
     lit = st.tuples(st.just("lit"), literal_values(tier))
     sfx = st.tuples(st.just("sfx"), st.sampled_from([1, 20, 31, 32, 33, 40]))
-    return st.one_of([lit] * 3 + [sfx] * sfx_weight)
+    prev = st.tuples(st.just("prev"), st.sampled_from([1, 33]))  # the key's previous value
+    return st.one_of([lit] * 3 + [sfx] * sfx_weight + [prev])
 
 
-def resolve_val(spec, key):
+def resolve_val(spec, key, prev=None):
     if spec[0] == "lit":
         return spec[1]
+    if spec[0] == "prev" and prev is not None and key in prev:
+        return prev[key]
     last = key[-1:] if key else b"\x55"
     return last * spec[1]
 
@@ -204,11 +209,42 @@ def _flatten(fragments, max_ops):
     return out[:max_ops]
 
 
+def look_ops(tier):
+    """Explicit lookups (one spelling, one key) and re-pointing the trie at an earlier root."""
+    ks = keyspecs(tier, near_weight=6)
+    return st.one_of(
+        st.tuples(st.just("look"), ks, st.integers(0, 3)),
+        st.tuples(st.just("look"), existing_keyspecs(), st.integers(0, 3)),
+    )
+
+
+def probe_fragments(tier):
+    """
+    look at key k (one spelling) - change k in a committed batch / by re-pointing the root /
+    directly - look at k again or write its previous value back: the shapes in which state
+    remembered by the trie OBJECT between two calls would show.
+    """
+    touched = ("touched",)
+
+    def build(i, sp1, sp2, vs, how, syn, tail):
+        k = ("near", i, "same", 0, 0)
+        change = ("del", k, syn) if how == 1 else ("set", k, vs, syn)
+        mid = [("reroot", i)] if how == 2 else [("batch", [change], -1)] if how != 3 else [change]
+        last = [("look", touched, sp2)] if tail == 0 else [("set", touched, ("prev", 33), syn)] if tail == 1 else \
+            [("set", touched, ("prev", 33), syn), ("look", touched, sp2)]
+        return [("look", k, sp1)] + mid + last
+
+    return st.builds(build, st.integers(0, 30), st.integers(0, 3), st.integers(0, 3), valspecs(tier),
+                     st.integers(0, 3), st.integers(0, 1), st.integers(0, 2))
+
+
 def histories(tier, max_ops=None, batches=True, aborts=False, near_weight=2, sfx_weight=2,
-              min_ops=0, mirror_weight=1):
+              min_ops=0, mirror_weight=1, looks=0, reroot=False):
     if max_ops is None:
         max_ops = 30 if tier == "quick" else 80
     op = simple_ops(tier, near_weight, sfx_weight)
+    if looks:
+        op = st.one_of([op] * 3 + [look_ops(tier)] * looks)
     mirror = mirror_fragments()
     parts = [op] * 12 + [mirror] * mirror_weight + [fan_fragments()]
     if batches:
@@ -221,6 +257,10 @@ def histories(tier, max_ops=None, batches=True, aborts=False, near_weight=2, sfx
             end = st.just(-1)
         batch = st.tuples(st.just("batch"), inner, end)
         parts = parts + [batch] * 2
+    if reroot:
+        parts = parts + [st.tuples(st.just("reroot"), st.integers(0, 60))]
+    if looks and batches:
+        parts = parts + [probe_fragments(tier)] * 2
     normal = st.lists(st.one_of(parts), min_size=min_ops, max_size=max_ops).map(
         lambda fr: _flatten(fr, max_ops + 16)
     )
